@@ -138,15 +138,13 @@ def rotateH (left : Bool) (args : List Bytes) : HRes :=
 def mapOf (ps : List (Bytes × Bytes)) : List (Bytes × Bytes) :=
   ps.foldl (fun acc (k, v) => acc.filter (·.1 ≠ k) ++ [(k, v)]) []
 
-/-- HSET key f v [f v …]: `HSet` for the first pair, then (when there are more arguments) one
-    `HMSet` with the map of the remaining complete pairs — also when that map is empty -/
+/-- HSET key f v [f v …]: one `HMSet` with the map of all complete pairs, i.e. one transaction. (Until the repair
+    "HSET with several pairs was two transactions" the handler ran `HSet` for the first pair and `HMSet` for the rest:
+    another client could see the hash with only the first field of one HSET.) -/
 def hSetH (args : List Bytes) : HRes :=
   match args with
   | key :: f :: v :: rest => .exec fun s now _ =>
-      call (Api.hset s now key f v) fun s o =>
-        let i := intOf o
-        if rest.isEmpty then done s [.int i] else
-        call (Api.hmset (Api.commit s) now key (mapOf (pairsOf rest))) fun s o2 => done s [.int (i + intOf o2)]
+      call (Api.hmset s now key (mapOf (pairsOf (f :: v :: rest)))) fun s o => done s [.int (intOf o)]
   | _ => errReply
 
 /-- HGET: `string(v) == ""` ⇒ null — an existing field holding the empty string reads as missing -/
